@@ -7,7 +7,7 @@ and 4-byte-tail guards (T3).  Not decided: validity of every emitted frame; offs
 from ..facts import extract, Broken
 from ..ir import Program, walk, is_call, strip_casts, const_val
 from ..report import Result
-from ..rules import guards, tables
+from ..rules import reset, guards, tables
 from ..rules.guards import cond_edges, Want
 
 
@@ -325,6 +325,46 @@ def interop_rules(prog, res):
     res.need(R, 6)
 
 
+def published_window_immutable(prog, res):
+    """T3: the window size is published once, in the frame header written by the first job; every later writer of the
+    multithreaded context's compression parameters must put the published windowLog back."""
+    R = "T3.published-window-immutable"
+    fns = [f for f in prog.fns_in("lib/compress/zstdmt_compress.c")]
+    writers = []
+    for f in fns:
+        for b, i, x in f.events(lambda y: y.get("k") == "asg"):
+            pth = reset.field_path_from(x["lhs"], "ZSTDMT_CCtx_s")
+            if pth and pth[0] == "params" and (len(pth) == 1 or pth[1] == "cParams"):
+                writers.append((f, b, i, x, pth))
+    names = sorted({w[0].name for w in writers})
+    res.check(len(names) >= 2, R, "writers", "lib/compress/zstdmt_compress.c", "functions writing mtctx->params[.cParams]: %s" % names, "writers of the MT parameters vanished")
+    START = {"ZSTDMT_initCStream_internal", "ZSTDMT_createCCtx_advanced_internal"}     # before the header is written
+    for f, b, i, x, pth in writers:
+        if f.name in START:
+            continue
+        if len(pth) >= 3 and pth[2] != "windowLog":
+            res.ok(R, "%s:%s" % (f.name, ".".join(pth)), "%s:%s" % (f.file, x.get("l")), "writes a field other than windowLog")
+            continue
+        # the value written: a local whose windowLog field was overwritten, before this store, with a value read from mtctx->params.cParams.windowLog
+        src = strip_casts(f.resolve_x(x["rhs"]))
+        ok = False
+        if src is not None and src.get("k") == "ref" and src.get("rk") in ("l", "sl"):
+            for b2, i2, y in f.events(lambda z: z.get("k") == "asg"):
+                l = strip_casts(y["lhs"])
+                if l.get("k") == "mem" and l.get("f") == "windowLog" and strip_casts(l["b"]).get("n") == src["n"]:
+                    r = strip_casts(f.resolve_x(y["rhs"]))
+                    saved = r
+                    if r is not None and r.get("k") == "ref" and r.get("rk") in ("l", "sl"):
+                        saved = strip_casts(f.single_def(r["n"]) or {})
+                    from_ctx = saved is not None and reset.field_path_from(saved, "ZSTDMT_CCtx_s") == ("params", "cParams", "windowLog")
+                    if from_ctx and f.must_pass(via_roots=[(b2, i2)], targets=[(b, i)]):
+                        ok = True
+        res.check(ok, R, "%s:%s" % (f.name, ".".join(pth)), "%s:%s" % (f.file, x.get("l")),
+                  "the parameters written mid-frame carry the windowLog saved from the context (the one in the frame header)",
+                  "%s overwrites the multithreaded context's compression parameters mid-frame without restoring the windowLog already published in the frame header: later jobs may use a larger window than declared" % f.name)
+    res.need(R, 2)
+
+
 def run(tier):
     res = Result("C05", tier)
     tus, info = extract(["compress", "decompress", "common"])
@@ -335,6 +375,7 @@ def run(tier):
     checksum_discipline(prog, res)
     window_enforcement(prog, res)
     interop_rules(prog, res)
+    published_window_immutable(prog, res)
     return res.finish(
         explanation="Frame-header writer and reader agree with each other and with the format document on descriptor bit "
                     "positions, reserved bit, size-code thresholds, per-code field widths and the 256 bias; header "
